@@ -249,7 +249,7 @@ func (l *Lexer) skipLineComment() {
 	for {
 		char = l.reader.Read()
 
-		if char == '\n' {
+		if char == '\n' || char == 0 {
 			break
 		}
 
